@@ -72,7 +72,13 @@ def run(ctx):
                 if cond is None or cond > 10 ** 10:
                     ctx.count("gen.rejected_cond"); continue
                 made += 1
-                reqs.append({"op": "decomp", "n": n, "a": gen.flat_bits(A)})
+                r0 = {"op": "decomp", "n": n, "a": gen.flat_bits(A)}
+                if made % 3 == 0:
+                    # the stability test with a generous tolerance (the residual of a cond <= 1e10 matrix is far below 1e-3) must not
+                    # withhold the result; print_debug_info must not matter
+                    r0["tol"] = f2b(1e-3 if cond < 10 ** 8 else 1.0)
+                    r0["debug"] = bool(made % 2)
+                reqs.append(r0)
                 infos.append((n, fam, Af, cond))
     impl = run_harness(reqs)
     model = run_driver(reqs)
